@@ -26,7 +26,7 @@ OPTIONAL = [
     '1bad/tests.py', 'my-dir/tests.py', '.git/tests.py', 'node_modules/tests.py',
     '__pycache__/tests.py', 'CVS/tests.py', 'skipme/tests.py',
     'tests2/test_c.py', 'tests2/__init__.py', 'deep/tests/test_d.py', 'deep/tests/tests.py',
-    'Zed/tests.py', '_under/tests.py', 'a1/tests.py',
+    'Zed/tests.py', '_under/tests.py', 'a1/tests.py', 'fix[v1]/tests.py',
 ]
 OPTIONAL_C = [
     'ftests.pyc', 'other.pyc', 'sub/tests.pyc', 'sub/tests.pyo', 'sub/ftests.pyc', 'sub/inner/tests.pyc',
@@ -40,10 +40,10 @@ MPOOL = [[], [], ['sub'], ['!tests$'], ['^tests'], ['pkg', 'sub'], ['!sub', '!pk
 # only "tests" / "ftests" among the top-level file stems
 PATS = [{'tests_pat': '^f?tests$', 'file_pat': '^(test_|atest)'}, {'tests_pat': '^f?tests$', 'file_pat': '^(test_|atest)'},
         {'tests_pat': 'tests', 'file_pat': '_[a-d]$'}, {'tests_pat': '^(f|)tests2?$'}, {'file_pat': '^(a|helper)'}]
-# --ignore_dir values are directory names, not patterns: none of these is the
-# name of a directory of the universe (read as shell patterns they would match
+# --ignore_dir values are directory names, not patterns: fix[v1] is a directory
+# of the universe, the others are not (read as shell patterns they would match
 # skipme, sub, Zed, a1, pkg, deep, everything)
-IGN_LITERAL = ['sk[i]pme', 'su?', 'Z*', '[a-z]1', 'p?g', 'de*', '*']
+IGN_LITERAL = ['fix[v1]', 'sk[i]pme', 'su?', 'Z*', '[a-z]1', 'p?g', 'de*', '*']
 
 
 def spell_package(d, rng):
@@ -137,9 +137,9 @@ def run(chk, tier, seed, replay=None):
                 'needs __init__.py; --usecompiled: a compiled file counts only where its source is absent, '
                 '__init__.pyc makes a package, one file per module) over every parent-closed subset of a '
                 '17-entry universe x 4 root lists x {none, --usecompiled}. '
-                '(2) real runs: trees drawn from a 60-entry universe (tests.py / tests package / f?tests, '
+                '(2) real runs: trees drawn from a 62-entry universe (tests.py / tests package / f?tests, '
                 'helper and non-.py files, namespace and regular packages, directories named 1bad, my-dir, '
-                '.git, node_modules, __pycache__, CVS, --ignore_dir, mixed-case and underscore names; a third '
+                '.git, node_modules, __pycache__, CVS, fix[v1], --ignore_dir, mixed-case and underscore names; a third '
                 'of the trees with real byte-code made by py_compile beside its source, without it, as '
                 '__init__.pyc, plus .pyo look-alikes, run with --usecompiled / -k / neither) x '
                 'default / four alternative --tests-pattern and --test-file-pattern settings x roots {top}, {top, top}, '
